@@ -12,7 +12,7 @@ META = {
                    "only run under a peer-chosen Some are enumerated against a reviewed table; (R1.v) no assert!/panic!/unreachable! is control-dependent on a condition over a message component (value or length), "
                    "also in helpers the component is handed to; (R1.vi) a vector whose length is decided by message contents (collected through "
                    "filter/filter_map/flatten/.. looking at a component, or pushed to under a test of one) reaches no index in any function it "
-                   "travels to (type-directed interprocedural flow) without a dominating fail-closed length test; (R-ERR) no Result of the channel / protocol "
+                   "travels to (type-directed interprocedural flow) without a dominating fail-closed length test; (R1.raw) inside the receive primitives the raw bytes from the user's Channel are only handed to the decoder, never indexed / split / sliced; (R-ERR) no Result of the channel / protocol "
                    "error types is discarded; (R1.wait) every await polls engine futures only and no std MutexGuard lives across a yield. "
                    "These are site enumerations over all CFG paths: they cover every malformed message at every receive without guessing the "
                    "message. Time bounds, the user-supplied Channel and bincode internals are not decided.",
@@ -32,6 +32,7 @@ def run(ctx, res):
     r1.rule_peer_controlled_sinks(S, res)
     r1.rule_peer_controlled_panics(S, res)
     r1.rule_peer_sized_containers(S, res)
+    r1.rule_raw_bytes(S, res)
     rule_decrypt_result(S, res)
     r1.rule_err_not_dropped(S, res)
     r1.rule_wait_only_on_channel(S, res)
